@@ -541,7 +541,11 @@ class SourceListingOrder(Stream):
             holds = rng.random() < 0.75
             subs.append({"name": n, "project": {"name": rng.choice(["helper", "helper", "Helper", "other"]), "version": "%d.%d" % (rng.randint(1, 9), i)} if holds else None,
                          "nested": rng.random() < 0.5})
-        return {"subs": subs, "sibling": rng.random() < 0.6, "orders": [rng.randint(1, 10 ** 6) for _ in range(3)]}
+        return {"subs": subs, "sibling": rng.random() < 0.6, "orders": [rng.randint(1, 10 ** 6) for _ in range(3)],
+                # the same project at the same version in two directories with the same last path component (a vendored
+                # copy and its original) that declare different requirements: which one is taken must not depend on the
+                # hash seed or on the number of discovery threads
+                "twins": rng.random() < 0.4}
 
     def impl(self, case):
         import contextlib
@@ -560,7 +564,13 @@ class SourceListingOrder(Stream):
                 B.write_source_project(os.path.join(sd, "fixture") if s["nested"] else sd, s["project"]["name"], s["project"]["version"])
         if case["sibling"]:
             B.write_source_project(os.path.join(tree, "helper-main"), "helper", "1.0")
-        B.write_findlinks(os.path.join(d, "links"), {B.wheel_name("helper", "0.5"): B.wheel_bytes("helper", "0.5")})
+        wheels = {B.wheel_name("helper", "0.5"): B.wheel_bytes("helper", "0.5")}
+        if case.get("twins"):
+            B.write_source_project(os.path.join(tree, "app", "vendor_a", "util"), "helper", "9.9", requires=["dep-a"])
+            B.write_source_project(os.path.join(tree, "app", "vendor_b", "util"), "helper", "9.9", requires=["dep-b"])
+            wheels[B.wheel_name("dep-a", "1.0")] = B.wheel_bytes("dep-a", "1.0")
+            wheels[B.wheel_name("dep-b", "1.0")] = B.wheel_bytes("dep-b", "1.0")
+        B.write_findlinks(os.path.join(d, "links"), wheels)
         with open(os.path.join(d, "in0.txt"), "w") as f:
             f.write("app\n")
         orig_walk = os.walk
@@ -599,6 +609,16 @@ class SourceListingOrder(Stream):
                 os.chdir(old)
             return {"code": code, "stdout": out.getvalue()}
         outs = {str(o): run(o) for o in ["sorted", "reversed"] + list(case["orders"])}
+        if case.get("twins"):
+            for seed in (0, 1, 2, 3, 4, 5):
+                env = dict(os.environ, PYTHONHASHSEED=str(seed), PYTHONPATH=os.environ.get("VERIF_REPO", "/repo"), PYTHONWARNINGS="ignore")
+                env.pop("REQ_COMPILE_VERIF", None)
+                try:
+                    p = subprocess.run([sys.executable, "-W", "ignore", "-m", "req_compile.cmdline", "in0.txt", "--source", "tree", "--find-links", "links", "--no-index"],
+                                       cwd=d, env=env, stdout=subprocess.PIPE, stderr=subprocess.PIPE, timeout=120)
+                    outs["hashseed-%d" % seed] = {"code": p.returncode, "stdout": p.stdout.decode("utf-8", "replace")}
+                except subprocess.TimeoutExpired:
+                    outs["hashseed-%d" % seed] = {"code": "timeout", "stdout": ""}
         shutil.rmtree(d, ignore_errors=True)
         return {"outs": outs}
 
@@ -609,6 +629,8 @@ class SourceListingOrder(Stream):
             fl.append("several-test-directories")
         if any(s["project"] for s in tests):
             fl.append("project-inside-a-test-directory")
+        if case.get("twins"):
+            fl.append("twin-copies-of-one-release")
         return fl
 
     def oracle(self, case, r):
